@@ -28,9 +28,12 @@ struct R<'gc> {
     keep: Vec<Gc<'gc, N<'gc>>>,
     weak: Vec<GcWeak<'gc, N<'gc>>>,
     leaves: Vec<Gc<'gc, L>>,
+    /// weak index traced BEFORE the owners
+    windex: Vec<GcWeak<'gc, N<'gc>>>,
 }
 unsafe impl<'gc> Collect<'gc> for R<'gc> {
     fn trace<T: Trace<'gc>>(&self, cc: &mut T) {
+        cc.trace(&self.windex);
         cc.trace(&self.keep);
         cc.trace(&self.weak);
         cc.trace(&self.leaves);
@@ -87,7 +90,7 @@ struct Stats {
     known_stw_empty: u64,
 }
 
-const WORKLOADS: [&str; 7] = ["all garbage", "all survive", "half survive", "mixed with weak shells", "all weak", "non-tracing survivors + garbage", "survivors with 4 write barriers on kept objects per allocation"];
+const WORKLOADS: [&str; 8] = ["all garbage", "all survive", "half survive", "mixed with weak shells", "all weak", "non-tracing survivors + garbage", "survivors with 4 write barriers on kept objects per allocation", "survivors that a weak index traced before their owner also refers to"];
 const DRIVERS: [&str; 3] = ["cycle_debt", "collect_debt", "mark_debt + start_sweeping, cycle_debt while Sweeping"];
 
 fn alloc_burst(arena: &mut A, cfg: &Cfg, round: usize) {
@@ -115,6 +118,10 @@ fn alloc_burst(arena: &mut A, cfg: &Cfg, round: usize) {
                                 gc_arena::barrier::unlock!(Gc::write(mc, k), N, next).set(old);
                             }
                         }
+                        7 => {
+                            root.keep.push(n);
+                            root.windex.push(Gc::downgrade(n));
+                        }
                         2 => {
                             if (i + round) % 2 == 0 {
                                 root.keep.push(n)
@@ -135,6 +142,9 @@ fn alloc_burst(arena: &mut A, cfg: &Cfg, round: usize) {
             let cut = root.keep.len() / 2;
             root.keep.drain(..cut);
         }
+        if root.windex.len() > 96 {
+            root.windex.drain(..48);
+        }
         if root.leaves.len() > 48 {
             root.leaves.truncate(16);
         }
@@ -145,7 +155,7 @@ fn alloc_burst(arena: &mut A, cfg: &Cfg, round: usize) {
 }
 
 fn run_cfg(cfg: &Cfg, st: &mut Stats) -> Result<(), String> {
-    let mut arena: A = Arena::new(|_| R { keep: vec![], weak: vec![], leaves: vec![] });
+    let mut arena: A = Arena::new(|_| R { keep: vec![], weak: vec![], leaves: vec![], windex: vec![] });
     let m = arena.metrics().clone();
     m.set_pacing(Pacing {
         sleep_factor: cfg.sleep_factor,
@@ -363,7 +373,7 @@ pub fn run(thorough: bool, only: Option<&str>) -> GridOut {
         let rounds = if thorough { 400 } else { 120 };
         for f in &pacings {
             for (sf, ms) in sleeps {
-                for w in 0..7u8 {
+                for w in 0..8u8 {
                     for &b in bursts {
                         for d in 0..3u8 {
                             cfgs.push(Cfg { f: *f, sleep_factor: *sf, min_sleep: *ms, workload: w, burst: b, driver: d, rounds });
